@@ -79,9 +79,13 @@ func runAsync(ch *simrt.Chooser, opt Options) RunResult {
 
 	out := simrt.Run(ch, cfg, func(s *simrt.Sim) {
 		width := 8
-		if s.Draw("width-class", 6) == 0 {
+		switch wc := s.Draw("width-class", 30); {
+		case wc < 5:
 			width = 40 // beyond any small batch size a chunking implementation might use
 			res.Counters["size-class:wide"]++
+		case wc == 5:
+			width = []int{65, 100, 129, 257}[s.Draw("huge-width", 4)] // beyond larger batch sizes (64, 128, 256)
+			res.Counters["size-class:huge"]++
 		}
 		switch scen {
 		case 0, 1:
@@ -1048,16 +1052,25 @@ func readers(s *simrt.Sim, top *asyncClient, sameCall bool, trace *[]string) []*
 		reps := 1 + s.Draw("same-reps", 3)
 		// identical calls, or the same method on the same receiver with independently drawn arguments
 		// (a hidden write keyed by the argument only collides when the arguments differ)
-		sameArgs := s.Draw("same-args", 2) == 0
-		if !sameArgs {
+		argMode := s.Draw("same-args", 3)
+		op2 := ops[s.Draw("same-op2", len(ops))]
+		switch argMode {
+		case 1:
 			top.ops["probe:readers-same-method-different-arguments"]++
+		case 2:
+			// two methods on one receiver: a hidden write in one of them meets the reads of the other
+			top.ops["probe:readers-two-methods-one-receiver"]++
+			reps++
 		}
 		for i := range plans {
 			for r := 0; r < reps; r++ {
 				cp := *proto
-				if !sameArgs {
+				if argMode != 0 {
 					cp = *genCall(s, lists, objs, onList, pick)
 					cp.op = op
+					if argMode == 2 && (r+i)%2 == 1 {
+						cp.op = op2
+					}
 				}
 				cp.seq = r + 1
 				plans[i] = append(plans[i], &cp)
